@@ -616,7 +616,9 @@ func (rdb *RDB) FindFirst(keys [][]byte) ([]byte, int, error) {
 func (rdb *RDB) FindClosest(key []byte, ctx *Context) ([]byte, []byte, error) {
 	cachedEntry, ok := ctx.cache[string(key)]
 
-	if ok {
+	// an entry without data was stored by get for a key that does not exist: it says nothing
+	// about the closest smaller key (the iterator never delivers an empty value)
+	if ok && len(cachedEntry.data) > 0 {
 		return cachedEntry.key, cachedEntry.data, nil
 	}
 
@@ -696,7 +698,8 @@ func (rdb *RDB) get(key []byte, ctx *Context) (data []byte, err error) {
 		if err != nil {
 			return nil, err
 		}
-		ctx.update(key, key, data)
+		// the entry outlives this call: it must not share the caller's key buffer
+		ctx.update(key, append([]byte(nil), key...), data)
 	}
 
 	return data, nil
